@@ -85,22 +85,50 @@ Proof. intros Hm s tr s' a H. rewrite (Hm _ _ _ _ H). apply good_nil. Qed.
 Lemma til_never A (m : M A) : (forall s tr s' a, m s <> (tr, s', Ok a)) -> tiles m.
 Proof. intros Hm s tr s' a H. exfalso. eapply Hm. exact H. Qed.
 
-(** [bp_walk] returns normally only without having read or emitted anything *)
-Lemma bp_walk_quiet ids p size s tr s' a : bp_walk ids p size s = (tr, s', Ok a) -> tr = [].
+(** computations that never read or emit when they return normally *)
+Definition quiet {A} (m : M A) : Prop := forall s tr s' a, m s = (tr, s', Ok a) -> tr = [].
+Definition never_ok {A} (m : M A) : Prop := forall s tr s' a, m s <> (tr, s', Ok a).
+
+Lemma quiet_of_never A (m : M A) : never_ok m -> quiet m.
+Proof. intros H s tr s' a E. exfalso. eapply H. exact E. Qed.
+
+Lemma quiet_bind A B (m : M A) (f : A -> M B) : quiet m -> (forall a, quiet (f a)) -> quiet (bind m f).
 Proof.
-  revert s tr s' a. induction ids as [|i r IH]; intros s tr s' a H; cbn [bp_walk] in H.
-  - injection H as <- <- _. reflexivity.
-  - unfold bind at 1 in H. cbn [get] in H.
-    destruct (sc_obs (get_sc _ i)).
-    + unfold bind in H. cbn [remove_lst] in H.
-      destruct (bp_walk r p size _) as [[tr2 s2] o2] eqn:E. destruct o2; try discriminate.
-      injection H as <- <- _. cbn [app]. eapply IH. exact E.
-    + destruct (exceeds (get_sc _ i) size).
-      * unfold bind in H. cbn [set_sc] in H.
-        destruct (consume _ _) as [[trc sc_] oc]. destruct oc; discriminate.
-      * unfold bind in H. cbn [set_sc] in H.
-        destruct (bp_walk r p size _) as [[tr2 s2] o2] eqn:E. destruct o2; try discriminate.
-        injection H as <- <- _. cbn [app]. eapply IH. exact E.
+  intros Hm Hf s tr s' b H. unfold bind in H. destruct (m s) as [[tr1 s1] o1] eqn:E1.
+  destruct o1 as [a|e| |k|]; try discriminate.
+  destruct (f a s1) as [[tr2 s2] o2] eqn:E2. injection H as <- _ ->.
+  rewrite (Hm _ _ _ _ E1), (Hf _ _ _ _ _ E2). reflexivity.
+Qed.
+
+Lemma never_bind_r A B (m : M A) (f : A -> M B) : (forall a, never_ok (f a)) -> never_ok (bind m f).
+Proof.
+  intros Hf s tr s' b H. unfold bind in H. destruct (m s) as [[tr1 s1] o1] eqn:E1.
+  destruct o1 as [a|e| |k|]; try discriminate.
+  destruct (f a s1) as [[tr2 s2] o2] eqn:E2. injection H as _ _ ->. eapply Hf. exact E2.
+Qed.
+
+Lemma quiet_get : quiet get.
+Proof. intros s tr s' a H. injection H as <- _ _. reflexivity. Qed.
+Lemma quiet_ret A (x : A) : quiet (ret x).
+Proof. intros s tr s' a H. injection H as <- _ _. reflexivity. Qed.
+Lemma quiet_set_sc i c : quiet (set_sc i c).
+Proof. intros s tr s' a H. injection H as <- _ _. reflexivity. Qed.
+Lemma quiet_set_lst l : quiet (set_lst l).
+Proof. intros s tr s' a H. injection H as <- _ _. reflexivity. Qed.
+
+Lemma quiet_bump_all ids n : quiet (bump_all ids n).
+Proof.
+  induction ids as [|i r IH]; cbn [bump_all]; [apply quiet_ret|].
+  apply quiet_bind; [apply quiet_get|]. intros s. apply quiet_bind; [apply quiet_set_sc|]. intros _. exact IH.
+Qed.
+
+Lemma quiet_bytes_parsed p size : quiet (bytes_parsed p size).
+Proof.
+  unfold bytes_parsed, purge. apply quiet_bind.
+  - apply quiet_bind; [apply quiet_get|]. intros s. apply quiet_set_lst.
+  - intros _. apply quiet_bind; [apply quiet_get|]. intros s.
+    destruct (find_violated s (lst s) size []) as [[[[before i] by_] after]|]; [|apply quiet_bump_all].
+    apply quiet_of_never. do 5 (apply never_bind_r; intros _). intros s0 tr s' a H. discriminate.
 Qed.
 
 Lemma readn_ok n s tr s' bs : readn n s = (tr, s', Ok bs) -> tr = map Rd bs /\ List.length bs = n.
@@ -115,10 +143,10 @@ Qed.
 Lemma til_dec_prim abort p pa : tiles (dec_prim abort p pa).
 Proof.
   intros s tr s' a H. unfold dec_prim in H.
-  unfold bind at 1 in H. unfold bytes_parsed, bind at 1 in H. cbn [get lst] in H.
-  destruct (bp_walk (lst s) pa (pwidth p) s) as [[tr1 s1] o1] eqn:E1.
+  unfold bind at 1 in H.
+  destruct (bytes_parsed pa (pwidth p) s) as [[tr1 s1] o1] eqn:E1.
   destruct o1 as [u|e| |k|]; try discriminate.
-  pose proof (bp_walk_quiet _ _ _ _ _ _ _ E1) as ->. cbn [app] in H.
+  pose proof (quiet_bytes_parsed _ _ _ _ _ _ E1) as ->. cbn [app] in H.
   unfold bind at 1 in H.
   destruct (readn _ s1) as [[tr2 s2] o2] eqn:E2. destruct o2 as [bs| | | |]; try discriminate.
   destruct (readn_ok _ _ _ _ _ E2) as [-> L].
@@ -149,13 +177,14 @@ Lemma til_assert_done abort i : tiles (assert_done abort i).
 Proof.
   intros s tr s' a H. unfold assert_done in H. unfold bind at 1 in H. cbn [get] in H.
   destruct (sc_max (get_sc _ i)) as [mx|]; [|discriminate].
+  destruct (sc_obs (get_sc _ i)); [injection H as <- _ _; apply good_nil|].
   unfold bind at 1 in H. cbn [set_sc] in H.
   destruct (sc_already (get_sc _ i) =? mx).
   - cbn in H. injection H as <- _ _. apply good_nil.
   - destruct abort; [discriminate|].
-    unfold bind in H. cbn [emit] in H.
-    destruct (consume _ _) as [[trc sc_] oc]. destruct oc; try discriminate.
-    injection H as <- _ _. right. reflexivity.
+    unfold bind at 1 in H. cbn [emit] in H.
+    match type of H with context [bind ?m ?f ?st] => destruct (bind m f st) as [[trc sc_] oc] end.
+    destruct oc; try discriminate. injection H as <- _ _. right. reflexivity.
 Qed.
 
 Lemma til_catch A abort ids (m h : M A) : tiles m -> tiles h -> tiles (catch_exceeded abort ids m h).
@@ -164,7 +193,7 @@ Proof.
   destruct (m s) as [[tr1 s1] o1] eqn:E1.
   destruct o1 as [a1|e| |k|]; try discriminate.
   - injection H as <- <- <-. eapply Hm. exact E1.
-  - destruct e as [| c v b | | | |]; try discriminate.
+  - destruct e as [| c v b | | | | |]; try discriminate.
     destruct (abort || negb (existsb (Nat.eqb (si_id c)) ids)); [discriminate|].
     destruct (h s1) as [[tr2 s2] o2] eqn:E2. injection H as <- _ _.
     right. apply sizewarn_app_r. reflexivity.
@@ -187,6 +216,9 @@ Proof.
   - apply til_quiet. intros s tr s' a H. injection H as <- _ _. reflexivity.
   - apply til_assert_done.
   - apply til_catch; assumption.
+  - destruct abort; [apply til_never; intros s tr s' a H; discriminate|].
+    intros s tr s' a H. injection H as <- _ _. destruct e; try (right; reflexivity).
+    left. eexists. apply t_vwarn. constructor.
 Qed.
 
 Theorem tiles_dec_root T abort r : tiles (dec_root T abort r).
